@@ -197,7 +197,7 @@ def _callback_pattern(ctx, dotted: str):
 
 
 def rule_r2(ctx, cg, scope) -> RuleResult:
-    rr = RuleResult("C05.R2", "int()/float() of text is soundly guarded", min_instances=20)
+    rr = RuleResult("C05.R2", "int()/float() of text is soundly guarded", min_instances=12)
     for dotted, fn in scope.items():
         if dotted.count(".") > 1 and ".".join(dotted.split(".")[:-1]) in scope and not dotted.startswith("core.Wtp."):
             pass
